@@ -47,6 +47,20 @@ def _scan(skip_tids):
 
 
 POLLERS = set()  # native ids of harness threads that poll (they are never part of the verdict)
+PAUSED = [0]     # number of library threads the yield injector is holding at a window right now (bounded holds): no verdict meanwhile
+_PAUSED_LOCK = threading.Lock()
+
+
+class paused:
+    """Context manager: the current (library) thread is being held by the harness for a bounded time."""
+
+    def __enter__(self):
+        with _PAUSED_LOCK:
+            PAUSED[0] += 1
+
+    def __exit__(self, *a):
+        with _PAUSED_LOCK:
+            PAUSED[0] -= 1
 
 
 class polling:
@@ -153,6 +167,8 @@ def _await_or_deadlock(is_done, director, log, wall_timeout, checks, check_gap, 
             return 'done'
         if director is not None and (director.parked_keys() or director.sleeping):
             continue
+        if PAUSED[0]:
+            continue
         if not quiescent(director=director):
             continue
         # candidate: confirm
@@ -162,7 +178,7 @@ def _await_or_deadlock(is_done, director, log, wall_timeout, checks, check_gap, 
             time.sleep(check_gap)
             if is_done():
                 return 'done'
-            if (log is not None and log.counter() != n0) or not quiescent(director=director) or (
+            if (log is not None and log.counter() != n0) or PAUSED[0] or not quiescent(director=director) or PAUSED[0] or (
                 director is not None and (director.parked_keys() or director.sleeping)
             ):
                 confirmed = False
